@@ -1083,7 +1083,9 @@ class Program:
                         pass
                 if " for " in h:
                     tr, ty = h.split(" for ", 1)
-                    keys.append(("trait", self._short(tr), self._short(strip_generics(ty)), rest))
+                    if not params:
+                        keys.append(("trait", self._short(tr), self._short(ty), rest))
+                        keys.append(("trait-s", self._short(tr), self._short(strip_generics(ty)), rest))
                     keys.append(("trait-any", self._short(strip_generics(tr)), self._short(strip_generics(ty)), rest))
                 else:
                     keys.append(("inherent", self._short(strip_generics(h)), rest))
@@ -1100,10 +1102,9 @@ class Program:
         if m and not m.group(1).startswith(("dyn ", "{")):
             ty, tr, meth = m.group(1), m.group(2), m.group(3)
             ty = re.sub(r"^&(mut )?", "", ty)
-            for key in (("trait", self._short(tr), self._short(strip_generics(ty)), meth),):
-                fs = self.by_norm.get(key)
-                if fs and len(fs) == 1:
-                    return fs[0]
+            fs = self.by_norm.get(("trait", self._short(tr), self._short(ty), meth))
+            if fs and len(fs) == 1:
+                return fs[0]
             hits = []
             for srx, trx, params, f in self.generic_impls.get((self._short(strip_generics(tr)), meth), []):
                 m1, m2 = srx.match(self._short(ty)), trx.match(self._short(tr))
@@ -1114,6 +1115,9 @@ class Program:
             if len(hits) == 1:
                 self.last_bindings = hits[0][1]
                 return hits[0][0]
+            fs = self.by_norm.get(("trait-s", self._short(tr), self._short(strip_generics(ty)), meth))
+            if not hits and fs and len(fs) == 1:
+                return fs[0]
             return None
         base = strip_generics(c)
         # path::<impl path::Type>::method[::{closure#n}]
